@@ -82,6 +82,31 @@ def ScopedGs (vis : List String) : List NGraph → Prop
   | g :: gs => ScopedG vis g ∧ ScopedGs vis gs
 end
 
+mutual
+/-- the two well-formedness clauses the checker asks for besides the declarative statement: the
+    initializer list of every graph has no repetition and no entry name is empty -/
+def WfG : NGraph → Prop
+  | .mk ins inits nodes _ => inits.Nodup ∧ "" ∉ entryNames ins inits ∧ WfNs nodes
+def WfNs : List NNode → Prop
+  | [] => True
+  | (.mk _ _ _ subs) :: rest => WfGs subs ∧ WfNs rest
+def WfGs : List NGraph → Prop
+  | [] => True
+  | g :: gs => WfG g ∧ WfGs gs
+end
+
+mutual
+/-- `WfG` as a program (run by the driver on every real graph next to `checkStructural`) -/
+def wfB : NGraph → Bool
+  | .mk ins inits nodes _ => decide inits.Nodup && !(entryNames ins inits).contains "" && wfNsB nodes
+def wfNsB : List NNode → Bool
+  | [] => true
+  | (.mk _ _ _ subs) :: rest => wfGsB subs && wfNsB rest
+def wfGsB : List NGraph → Bool
+  | [] => true
+  | g :: gs => wfB g && wfGsB gs
+end
+
 def valueNames (ds : List Def) : List String := (ds.filter (fun d => d.1)).map (·.2)
 def nodeNames (ds : List Def) : List String := (ds.filter (fun d => !d.1)).map (·.2)
 
